@@ -278,3 +278,25 @@ CHECKS["C17"]["text"] += (" 21 further failure kinds: overflow / zero divisor / 
 CHECKS["C19"]["text"] += (" Symbol names: the probes export 17 functions whose names (1 .. 300 bytes) are prefixes of one another and return their own name; every exported length must reach exactly that"
                           " function, 14 lengths in between are missing symbols, in both libraries.")
 NOTES += (" Differential comparisons of programs that take keys() / values() / pairs() of a map compare the output as a multiset of lines, each line a multiset of tokens (HashMap order).")
+
+# ---- additions made in round 8 ----
+CHECKS["C01"]["text"] += (" From-loop bounds may be PLAIN VARIABLES that the first statements of the loop body change (growing / shrinking): the bounds were read once, before the first iteration.")
+CHECKS["C03"]["text"] += (" Five hosts in which the fault stands BEHIND a point where its block has returned on every path (after a return, after an all-returning if/else or else-if chain,"
+                          " after a return in a loop body / else arm); a parameter of a sibling method / constructor used as if it were a variable of this method.")
+CHECKS["C04"]["text"] += (" Two literals in one program: every string of length 2 (thorough 3) cut in two - two prints, two functions, map key + value, concatenation.")
+CHECKS["C18"]["text"] += (" Two literals in one program (every string of length 2 cut in two, as in C04).")
+CHECKS["C05"]["text"] += (" Op-assignment also as an EXPRESSION (its value printed next to the target's new value) for variable / element / field / map entry; pairs: two cells of one operator on the"
+                          " same digits but other operand kinds, one after the other in one program.")
+CHECKS["C08"]["text"] += (" The two same-named classes may also differ in shape (only one has a constructor / fields).")
+CHECKS["C10"]["text"] += (" Further write contexts: a method of a class whose sibling method (earlier / later) or constructor has a PARAMETER with the constant's name.")
+CHECKS["C11"]["text"] += (" Import statements that are executed more than once (in a function / method called several times, a loop body, both arms of an if, a nested function, a function and"
+                          " the module level in either order, two functions; 4 import forms / spellings): one initialisation, one shared instance. Module names that are suffixes / prefixes of one"
+                          " another and of `main` (four naming schemes over the graphs with n <= 4).")
+CHECKS["C12"]["text"] += (" Carrier `map lookup` (present / absent key).")
+CHECKS["C13"]["text"] += (" join also with its result bound to a name (one more alias of the receiver) and with a call chained onto its result.")
+CHECKS["C14"]["text"] += (" Pairs: neighbouring cells of the tables evaluated one after the other in ONE program (each in its own function); the second must print and end as it does alone.")
+CHECKS["C16"]["text"] += (" (h) type x use: a variable of each of 16 types, declared directly and through a `type` alias, in 40 uses (index with every literal / variable kind, index stores, call,"
+                          " field, operators, or / get, loop bound and step, condition, literals, methods).")
+CHECKS["C17"]["text"] += (" Failures raised WHILE AN IMPORTED MODULE RUNS ITS TOP LEVEL: 5 kinds x 0..2 functions below the module's top level x import form x import statement at module level /"
+                          " in a block / in a function x 1 or 2 modules between entry and failing module; the trace lists those functions, each module's top level and the function holding the import.")
+CHECKS["C19"]["text"] += (" Argument vectors of different lengths (0 .. 3) in sequences of 2 and 3 calls, alternating between the two libraries, the first call returning a value or none.")
